@@ -27,6 +27,29 @@ fn all_messages(c: &Client) -> BTreeMap<(String, String), Message> {
     out
 }
 
+/// the point lookup agrees with the listing, group by group: an id stored in one group is found in that group only
+/// ("in this or any other group"; seeded change C04-9: a lookup that falls back to a cache that is not keyed by group)
+fn cross_group_lookups(c: &Client, listed: &BTreeMap<(String, String), Message>) -> Vec<String> {
+    let mut bad = Vec::new();
+    let ids: std::collections::BTreeSet<String> = listed.keys().map(|k| k.1.clone()).collect();
+    for g in c.groups() {
+        let gh = hx(g.mls_group_id.as_slice());
+        for id in &ids {
+            let Ok(eid) = EventId::from_hex(id) else { continue };
+            let got = with_mdk!(c, m => m.get_message(&g.mls_group_id, &eid)).ok().flatten();
+            match (got, listed.get(&(gh.clone(), id.clone()))) {
+                (Some(_), None) => bad.push("lookup-finds-a-message-under-a-group-that-does-not-list-it".to_string()),
+                (None, Some(_)) => bad.push("lookup-misses-a-message-its-group-lists".to_string()),
+                (Some(a), Some(b)) if msg_fields(&a) != msg_fields(b) => bad.push("lookup-differs-from-the-listed-message".to_string()),
+                _ => {}
+            }
+        }
+    }
+    bad.sort();
+    bad.dedup();
+    bad
+}
+
 fn msg_fields(m: &Message) -> Value {
     json!({"id": m.id.to_hex(), "pubkey": m.pubkey.to_hex(), "kind": m.kind.as_u16(), "created_at": m.created_at.as_secs(), "content": m.content,
         "tags": serde_json::to_value(&m.tags).unwrap_or(Value::Null), "event": serde_json::to_value(&m.event).unwrap_or(Value::Null), "state": m.state.as_str(), "epoch": m.epoch, "wrapper": m.wrapper_event_id.to_hex()})
@@ -198,6 +221,7 @@ pub fn run(rep: &mut Report, backend: Bk, thorough: bool) {
                                 }
                                 let after = all_messages(&r);
                                 let mut bad = judge(&before, &after, &spk, &g1);
+                                bad.extend(cross_group_lookups(&r, &after));
                                 if *base_label == "victim-message-arrives-afterwards" {
                                     // the victim's own message legitimately appears: judge it against its real author
                                     bad.retain(|b| b != "new-message-attributed-to-non-sender" || after.iter().any(|(k, m)| !before.contains_key(k) && m.pubkey != spk && m.pubkey != pk_of("B").unwrap()));
